@@ -84,7 +84,16 @@ impl Driver {
             let mut a = RefMaster::new(3 * p, seg, Pid::new(BETTER_ID, (p + 1) as u16), GmData::simple(BETTER_ID, 10), log);
             a.two_step = ch.boolean(S_CFG);
             a.active = false;
-            let mut b = RefMaster::new(3 * p + 1, seg, Pid::new(WORSE_ID, (p + 1) as u16), GmData::simple(WORSE_ID, 254), log);
+            // the second master is either an unrelated (worse) clock or a second port of A's clock
+            // on this segment, announcing the same grandmaster
+            let sibling = ch.chance(S_CFG, 1, 4);
+            let mut b = if sibling {
+                let mut m = RefMaster::new(3 * p + 1, seg, Pid::new(BETTER_ID, (40 + p) as u16), GmData::simple(BETTER_ID, 10), log);
+                m.two_step = a.two_step;
+                m
+            } else {
+                RefMaster::new(3 * p + 1, seg, Pid::new(WORSE_ID, (p + 1) as u16), GmData::simple(WORSE_ID, 254), log)
+            };
             b.active = false;
             let mut c = RefMaster::new(3 * p + 2, seg, Pid::new(PEER_ID, (p + 1) as u16), GmData::simple(PEER_ID, 255), log);
             c.active = false;
@@ -167,7 +176,7 @@ impl Driver {
                 let which = ch.choose(S_WORK, 2) as usize;
                 let m = &mut self.masters[3 * p + which];
                 m.active = !m.active;
-                if which == 1 && m.active {
+                if which == 1 && m.active && m.pid.clock == WORSE_ID {
                     // sometimes the worse master is actually better than us
                     m.gm.priority1 = *ch.pick(S_WORK, &[254u8, 50]);
                 }
